@@ -1,56 +1,118 @@
-CLAIM = "wip"
-ASSUMPTIONS = []
+CLAIM = ("PMarc -pm1-/-pm2-: every decoding step of the real sources equals the format written out independently in "
+         "harness/C04/pma_ref.h (explicit prefix-code tables and arithmetic, validated natively against the repository's "
+         "test corpus by harness/C04/validate/run.sh).  Move-to-front history: init order (real size, concrete), the "
+         "update as an inductive step over arbitrary list contents at real size, lookups by bounded walks over arbitrary "
+         "contents plus full-length walks on concrete lists.  -pm2-: table parsers vs a reference parser, the table "
+         "(re)transmission schedule as an inductive invariant over the number of bytes output (any stream length), one "
+         "command from an arbitrary window/position/alignment/countdown (byte commands, copies 2..16 at symbolic "
+         "position, copies 17..256 at concrete positions, every length/distance field value).  -pm1-: every field "
+         "decoder at an arbitrary output position (all thresholds), all 32 start-header codes, one copy command over "
+         "an arbitrary 16 KiB window, the command structure of one read (header, block, copy decoded after the block), "
+         "the 216 rule, and the zero-bit continuation past the end of data through the real bit reader.  The steps "
+         "compose by their explicit state invariants/contracts; whole-stream runs are not encoded.")
+ASSUMPTIONS = [
+    "bit reader replaced by the BITS_SPEC model (bits of a symbolic byte string, MSB first) in all harnesses except pm1.eof.bits; its refinement by lib/bit_stream_reader.c is C01's bits.* claim",
+    "build_tree / read_from_tree (canonical code construction and tree walk) are C01/C09's tree.* claims; here they are capture/choice stubs",
+    "reference format = harness/C04/pma_ref.h, derived from the source comments (UNPMA description), DESIGN 4.4 and the property text; validated on all 41 pm1/pm2 payloads of the repository (output == real library == header CRC)",
+    "callee contracts used by the command harnesses are each discharged by another harness of this plan (named in stubs)",
+    "input callback contract: stores at most buf_len bytes and returns that count, 0 = end of data",
+]
 BITS = {"lib/bit_stream_reader.c": ["peek_bits", "read_bits", "read_bit"]}
+SPEC = "bit reader: BITS_SPEC model over a symbolic byte string (refinement: C01 bits.*)"
 CMD2 = dict(BITS, **{"lib/tree_decode.c": ["read_from_tree"], "lib/pm2_decoder.c": ["rebuild_tree"], "lib/pma_common.c": ["find_in_history_list", "update_history_list"]})
+CMD2_STUBS = [SPEC, "read_from_tree: yields the harness-chosen code symbol / offset class, consumes nothing, records when the offset tree is consulted (tree walk: tree.walk.*; table contents: pm2.tables.*)",
+              "find_in_history_list: returns ghost value-at-rank, records the rank (justified by mtf.walk/mtf.find)",
+              "update_history_list: records the bytes in order (justified by mtf.update)",
+              "rebuild_tree: counts calls and resets the countdown (what is read when: pm2.sched.*)"]
+TABS = dict(BITS, **{"lib/tree_decode.c": ["build_tree"]})
+SCHED = dict(BITS, **{"lib/pm2_decoder.c": ["read_code_tree", "read_offset_tree"]})
 PM1U = {"bs_ref.0": 19, "pma_ref_rows.0": 8, "pm1_ref_copy_type.0": 18, "pm1_ref_dist_bits.0": 10, "pm1_ref_class.0": 7, "read_byte_decode_index.0": 6}
+LONG_UNITS = ["lib/pm2_decoder.c:lha_pm2_decoder_read,copy_from_history,history_get_count,history_get_offset,output_byte", "lib/pma_common.c:decode_variable_length"]
+
 HARNESSES = [
-    dict(name="mtf.init", src="C04/mtf.c", entry="harness_init", unwind=257, units=["lib/pma_common.c:init_history_list"], timeout=120, bounds="concrete, all 256 ranks"),
-    dict(name="mtf.update", src="C04/mtf.c", entry="harness_update", unwind=9, backend="cadical", units=["lib/pma_common.c:update_history_list"], timeout=200, bounds="256"),
-    dict(name="mtf.walk", src="C04/mtf.c", entry="harness_walk", unwind=9, backend="cvc5", units=["lib/pma_common.c:find_in_history_list"], timeout=100, bounds="256"),
-    dict(name="mtf.find", src="C04/mtf.c", entry="harness_find", unwind=257, unwindset={"find_in_history_list.0": 129, "find_in_history_list.1": 130}, units=["lib/pma_common.c:find_in_history_list"], timeout=100, bounds="256"),
-    dict(name="pm2.tables.code", src="C04/pm2_tables.c", entry="harness_code", backend="cadical", rename_defs=dict(BITS, **{"lib/tree_decode.c": ["build_tree"]}),
+    # ---- H04.mtf
+    dict(name="mtf.init", src="C04/mtf.c", entry="harness_init", unwind=257, units=["lib/pma_common.c:init_history_list"], timeout=200,
+         bounds="real size (256 values), concrete: whole prev chain and every next link vs the fixed start order"),
+    dict(name="mtf.update", src="C04/mtf.c", entry="harness_update", unwind=9, backend="cadical", units=["lib/pma_common.c:update_history_list"], timeout=300,
+         bounds="real size; arbitrary list contents; b at arbitrary rank k; result inspected at arbitrary rank r; pre-state constrained only at the 8 ranks the update can touch or the probe reads (weaker than full consistency)"),
+    dict(name="mtf.walk", src="C04/mtf.c", entry="harness_walk", unwind=9, backend="cvc5", units=["lib/pma_common.c:find_in_history_list"], timeout=200,
+         bounds="arbitrary list contents, walks of <= 6 links in either direction (c <= 6 or c >= 250); longer walks over arbitrary contents are not decided (solver does not scale: 16 links no verdict in 120 s)"),
+    dict(name="mtf.find", src="C04/mtf.c", entry="harness_find", unwind=257, unwindset={"find_in_history_list.0": 129, "find_in_history_list.1": 130},
+         units=["lib/pma_common.c:find_in_history_list,update_history_list,init_history_list"], timeout=400,
+         bounds="real size, concrete lists: init order and the lists after 8 real updates; all 256 ranks after the last update (full-length walks both directions, switch at 128), samples before"),
+    # ---- H04.pm2.tables
+    dict(name="pm2.tables.code", src="C04/pm2_tables.c", entry="harness_code", backend="cadical", rename_defs=TABS,
          unwind=3, unwindset={"bs_ref.0": 8, "read_code_tree.0": 33, "load_bits.0": 37, "harness_code.0": 66, "pm2_ref_code_table.0": 33, "build_tree.0": 34, "read_from_tree.0": 3},
-         units=["lib/pm2_decoder.c:read_code_tree"], timeout=200, bounds="x"),
-    dict(name="pm2.tables.offset", src="C04/pm2_tables.c", entry="harness_offset", rename_defs=dict(BITS, **{"lib/tree_decode.c": ["build_tree"]}),
+         units=["lib/pm2_decoder.c:read_code_tree", "lib/tree_decode.c:set_tree_single,read_from_tree"], timeout=500,
+         bounds="every code table: n 0..31, m 0..7, w 0..7, all length fields symbolic (36 symbolic bytes), cursor at bit 0",
+         stubs=[SPEC, "build_tree: capture stub (tree, size, length array, count); construction from lengths is tree.*"]),
+    dict(name="pm2.tables.offset", src="C04/pm2_tables.c", entry="harness_offset", rename_defs=TABS,
          unwind=3, unwindset={"bs_ref.0": 8, "read_offset_tree.0": 10, "load_bits.0": 37, "harness_offset.0": 18, "pm2_ref_offset_table.0": 10, "build_tree.0": 34, "read_from_tree.0": 3},
-         units=["lib/pm2_decoder.c:read_offset_tree"], timeout=200, bounds="x"),
-    dict(name="pm2.sched.step", src="C04/pm2_sched.c", entry="harness_step", defines=["STEP_HARNESS"],
-         rename_defs=dict(BITS, **{"lib/pm2_decoder.c": ["read_code_tree", "read_offset_tree"]}), unwind=3,
-         units=["lib/pm2_decoder.c:output_byte,rebuild_tree"], timeout=200, bounds="x"),
-    dict(name="pm2.sched.start", src="C04/pm2_sched.c", entry="harness_start", defines=["START_HARNESS"],
-         rename_defs=dict(BITS, **{"lib/pm2_decoder.c": ["read_code_tree", "read_offset_tree"]}), unwind=3,
+         units=["lib/pm2_decoder.c:read_offset_tree", "lib/tree_decode.c:set_tree_single,read_from_tree"], timeout=200,
+         bounds="every offset table with 5..8 classes, need flag 0/1, arbitrary alignment", stubs=[SPEC, "build_tree: capture stub"]),
+    # ---- H04.pm2.sched
+    dict(name="pm2.sched.step", src="C04/pm2_sched.c", entry="harness_step", defines=["STEP_HARNESS"], rename_defs=SCHED, unwind=3,
+         units=["lib/pm2_decoder.c:output_byte,rebuild_tree", "lib/pma_common.c:update_history_list"], timeout=300,
+         bounds="inductive step: arbitrary T < 2^30 bytes output, arbitrary state satisfying INV(T), arbitrary window/position/history/fill/alignment; one output_byte",
+         stubs=[SPEC, "read_code_tree/read_offset_tree: logging stubs consuming nothing (their parsing: pm2.tables.*)"]),
+    dict(name="pm2.sched.start", src="C04/pm2_sched.c", entry="harness_start", defines=["START_HARNESS"], rename_defs=SCHED, unwind=3,
          unwindset={"memset.0": 8200, "init_history_list.0": 257, "init_tree.0": 66, "find_in_history_list.0": 9, "find_in_history_list.1": 2, "bs_ref.0": 4},
-         units=["lib/pm2_decoder.c:lha_pm2_decoder_init,lha_pm2_decoder_read,rebuild_tree"], timeout=200, bounds="x"),
+         units=["lib/pm2_decoder.c:lha_pm2_decoder_init,lha_pm2_decoder_read,rebuild_tree,read_single_byte,output_byte"], timeout=200,
+         bounds="init + first read, symbolic first bits", stubs=[SPEC, "read_code_tree/read_offset_tree: logging stubs"]),
+    # ---- H04.pm2.cmd
     dict(name="pm2.cmd.byte", src="C04/pm2_cmd.c", entry="harness_byte", defines=["BYTE_HARNESS"], rename_defs=CMD2, unwind=5, unwindset={"bs_ref.0": 8}, flags=["--arrays-uf-always"],
-         units=["lib/pm2_decoder.c:lha_pm2_decoder_read,read_single_byte,output_byte"], timeout=200, bounds="x"),
-    dict(name="pm2.cmd.copy", src="C04/pm2_cmd.c", entry="harness_copy", defines=["COPY_HARNESS", "ALIGN0"], rename_defs=CMD2, unwind=5, unwindset={"bs_ref.0": 14, "copy_from_history.0": 17},
-         flags=["--arrays-uf-always"], units=["lib/pm2_decoder.c:lha_pm2_decoder_read,copy_from_history,history_get_count,history_get_offset,output_byte"], timeout=300, mem_gb=4, bounds="x"),
+         units=["lib/pm2_decoder.c:lha_pm2_decoder_read,read_single_byte,output_byte", "lib/pma_common.c:decode_variable_length"], timeout=200, stubs=CMD2_STUBS,
+         bounds="code symbols 0..7, all extra bits, arbitrary 8 KiB window / position / alignment / countdown 1..4096 / stage"),
+    dict(name="pm2.cmd.copy", src="C04/pm2_cmd.c", entry="harness_copy", defines=["COPY_HARNESS", "COPY_LEN_MAX=8"], rename_defs=CMD2, unwind=5, unwindset={"bs_ref.0": 14, "copy_from_history.0": 11},
+         flags=["--arrays-uf-always"], units=LONG_UNITS, timeout=300, mem_gb=4, stubs=CMD2_STUBS, tier="quick",
+         bounds="copy lengths 2..8 (code symbols 8..14), any offset class 0..7 and distance bits (distance 1..8192), symbolic window position, arbitrary window, alignment, countdown"),
+    dict(name="pm2.cmd.copy16", src="C04/pm2_cmd.c", entry="harness_copy", defines=["COPY_HARNESS", "COPY_LEN_MAX=16"], rename_defs=CMD2, unwind=5, unwindset={"bs_ref.0": 14, "copy_from_history.0": 19},
+         flags=["--arrays-uf-always"], units=LONG_UNITS, timeout=1200, mem_gb=4, stubs=CMD2_STUBS, tier="thorough",
+         bounds="as pm2.cmd.copy with lengths 2..16 (all copy codes without length bits); ~110 s unloaded"),
     dict(name="pm2.cmd.fields", src="C04/pm2_cmd.c", entry="harness_fields", defines=["FIELDS_HARNESS"], rename_defs=CMD2, unwind=5, unwindset={"bs_ref.0": 14},
-         units=["lib/pm2_decoder.c:history_get_count,history_get_offset", "lib/pma_common.c:decode_variable_length"], timeout=200, bounds="x"),
+         units=["lib/pm2_decoder.c:history_get_count,history_get_offset", "lib/pma_common.c:decode_variable_length"], timeout=200, stubs=CMD2_STUBS,
+         bounds="every copy code 0..22 (21, 22: not commands), every value of the length and distance fields, every offset class, any alignment"),
 ] + [
     dict(name="pm2.cmd.long.c%d.%d" % (c, ln), src="C04/pm2_cmd.c", entry="harness_long", defines=["LONG_HARNESS", "LC=%d" % c, "LX=%d" % lx, "LPOS=%d" % pos, "LT=%d" % t, "LV=%d" % v], rename_defs=CMD2,
          unwind=5, unwindset={"bs_ref.0": 14, "copy_from_history.0": 258, "harness_long.0": 266, "put_bits.0": 14},
-         units=["lib/pm2_decoder.c:lha_pm2_decoder_read,copy_from_history,history_get_count,history_get_offset,output_byte"], timeout=300, mem_gb=4, bounds="x")
-    for c, lx, ln, pos, t, v in [(15, 0, 17, 0, 0, 0), (16, 7, 32, 8190, 7, 4095), (17, 20, 53, 100, 3, 44), (18, 63, 128, 5, 1, 0), (19, 0, 129, 8000, 5, 17), (19, 127, 256, 8100, 0, 2), (20, 0, 256, 4096, 0, 0)]
+         units=LONG_UNITS, timeout=300, mem_gb=4, stubs=CMD2_STUBS, tier=tier,
+         bounds="copy code %d, length %d, window position %d, distance %d: concrete command, arbitrary window content and countdown (rebuild may fall inside the copy)" % (c, ln, pos, (v if t == 0 else (1 << (t + 5)) + v) + 1 if c != 20 else 1))
+    for c, lx, ln, pos, t, v, tier in [(15, 0, 17, 0, 0, 0, "both"), (16, 7, 32, 8190, 7, 4095, "both"), (17, 20, 53, 100, 3, 44, "thorough"), (18, 63, 128, 5, 1, 0, "both"),
+                                       (19, 0, 129, 8000, 5, 17, "thorough"), (19, 127, 256, 8100, 0, 2, "both"), (20, 0, 256, 4096, 0, 0, "both")]
 ] + [
+    # ---- H04.pm1.cmd
     dict(name="pm1.cmd.fields", src="C04/pm1_cmd.c", entry="harness_fields", defines=["FIELDS_HARNESS", "BS_N=11"], backend="cadical", rename_defs=dict(BITS, **{"lib/pma_common.c": ["find_in_history_list"]}),
          unwind=3, unwindset=dict(PM1U, **{"load_bits.0": 12}),
-         units=["lib/pm1_decoder.c:read_copy_type_range,read_copy_byte_count,read_byte_block_count,read_byte_decode_index,read_byte"], timeout=300, bounds="x"),
+         units=["lib/pm1_decoder.c:read_copy_type_range,read_bit_after_threshold,read_copy_byte_count,read_byte_block_count,read_byte_decode_index,read_byte", "lib/pma_common.c:decode_variable_length"], timeout=400,
+         stubs=[SPEC, "find_in_history_list: ghost value-at-rank array, records the rank (mtf.walk/mtf.find)"],
+         bounds="arbitrary output position < 2^31, any of the 32 start headers, any alignment, all codewords (copy length 3..244, block length 1..216, copy class 0..5, rank 0..255)"),
     dict(name="pm1.cmd.copy", src="C04/pm1_cmd.c", entry="harness_copy", defines=["COPY_HARNESS", "BS_N=9", "ALIGN0"], backend="cadical", rename_defs=dict(BITS, **{"lib/pma_common.c": ["update_history_list"]}),
-         unwind=3, unwindset=dict(PM1U, **{"load_bits.0": 10, "read_copy_command.0": 9}), flags=["--arrays-uf-always"],
-         units=["lib/pm1_decoder.c:read_copy_command,outputted_byte"], timeout=300, mem_gb=4, bounds="x"),
+         unwind=3, unwindset=dict(PM1U, **{"load_bits.0": 10, "read_copy_command.0": 11}), flags=["--arrays-uf-always"],
+         units=["lib/pm1_decoder.c:read_copy_command,read_copy_type_range,read_copy_byte_count,outputted_byte", "lib/pma_common.c:decode_variable_length"], timeout=400, mem_gb=4,
+         stubs=[SPEC, "update_history_list: records the bytes in order (mtf.update)"],
+         bounds="arbitrary output position (all 12 thresholds symbolic), arbitrary 16 KiB window and window position, copy class 0..5, length <= 8, every distance incl. invalid ones (>= output position); cursor at bit 0"),
     dict(name="pm1.cmd.outb", src="C04/pm1_cmd.c", entry="harness_outb", defines=["OUTB_HARNESS"], rename_defs=dict(BITS, **{"lib/pma_common.c": ["update_history_list"]}),
-         unwind=3, flags=["--arrays-uf-always"], units=["lib/pm1_decoder.c:outputted_byte"], timeout=120, bounds="x"),
+         unwind=3, flags=["--arrays-uf-always"], units=["lib/pm1_decoder.c:outputted_byte"], timeout=120, stubs=["update_history_list: records (mtf.update)"],
+         bounds="arbitrary window, window position, output position, byte"),
     dict(name="pm1.cmd.read", src="C04/pm1_cmd.c", entry="harness_read", defines=["READ_HARNESS", "BS_N=12"], backend="cadical",
          rename_defs=dict(BITS, **{"lib/pm1_decoder.c": ["read_byte", "outputted_byte", "read_copy_command"]}),
          unwind=3, unwindset=dict(PM1U, **{"load_bits.0": 13, "read_byte_block.0": 5, "harness_read.0": 5, "harness_read.1": 5}),
-         units=["lib/pm1_decoder.c:lha_pm1_read,read_start_header,read_byte_block,read_byte_block_count"], timeout=300, bounds="x"),
+         units=["lib/pm1_decoder.c:lha_pm1_read,read_start_header,read_byte_block,read_byte_block_count"], timeout=300,
+         stubs=[SPEC, "read_byte: contract from pm1.cmd.fields (consumes one coded rank under the stream's start header, returns an arbitrary byte)",
+                "outputted_byte: contract from pm1.cmd.outb", "read_copy_command: contract from pm1.cmd.copy (records the state it is entered with, reports a harness-chosen length)"],
+         bounds="one lha_pm1_read: with or without the 5-bit start header, copy command or byte block of <= 4 symbolic bytes followed by its copy; arbitrary positions and alignment"),
     dict(name="pm1.cmd.block", src="C04/pm1_cmd.c", entry="harness_block", defines=["BLOCK_HARNESS", "BS_N=6"], backend="cadical", rename_defs=dict(BITS, **{"lib/pm1_decoder.c": ["read_byte", "outputted_byte", "read_copy_command"]}),
          unwind=3, unwindset=dict(PM1U, **{"load_bits.0": 7, "read_byte_block.0": 218}),
-         units=["lib/pm1_decoder.c:read_byte_block,read_byte_block_count"], timeout=300, bounds="x"),
+         units=["lib/pm1_decoder.c:read_byte_block,read_byte_block_count"], timeout=300,
+         stubs=[SPEC, "read_byte / outputted_byte / read_copy_command: counting stubs"],
+         bounds="every block length 1..216: number of bytes read, copy follows unless the length is 216, result length"),
+    # ---- H04.pm1.eof
     dict(name="pm1.eof.wrapper", src="C04/pm1_eof.c", entry="harness_wrapper", defines=["WRAPPER_HARNESS"], unwind=9, unwindset={"memset.0": 10},
-         units=["lib/pm1_decoder.c:read_callback_wrapper"], timeout=120, bounds="x"),
+         units=["lib/pm1_decoder.c:read_callback_wrapper"], timeout=120, stubs=["input callback: arbitrary count <= request, arbitrary bytes"],
+         bounds="requests of 0..8 bytes, any callback result"),
     dict(name="pm1.eof.bits", src="C04/pm1_eof.c", entry="harness_bits", defines=["BITS_HARNESS"], unwind=6,
          unwindset={"memset.0": 17000, "init_history_list.0": 257, "harness_bits.0": 11, "harness_bits.1": 7, "ref_bits.0": 14, "cb_read.0": 5, "peek_bits.0": 6, "peek_bits.1": 5},
-         units=["lib/pm1_decoder.c:read_callback_wrapper,lha_pm1_init", "lib/bit_stream_reader.c"], timeout=300, bounds="x"),
+         units=["lib/pm1_decoder.c:read_callback_wrapper,lha_pm1_init", "lib/bit_stream_reader.c:peek_bits,read_bits,bit_stream_reader_init"], timeout=500,
+         stubs=["cb_read: symbolic stream of 0..3 bytes with symbolic short reads, then end of data"],
+         bounds="real bit reader behind the wrapper; stream of 0..3 symbolic bytes; three reads of 1..13 bits each"),
 ]
